@@ -72,6 +72,7 @@ type DB struct {
 	writeDelay   time.Duration
 	writeDelayN  int
 	tr           *Transaction
+	trMu         sync.Mutex // guards tr against Close racing OpenTransaction
 
 	// Compaction.
 	compCommitLk     sync.Mutex
@@ -1198,8 +1199,11 @@ func (db *DB) Close() error {
 	close(db.closeC)
 
 	// Discard open transaction.
-	if db.tr != nil {
-		db.tr.Discard()
+	db.trMu.Lock()
+	tr := db.tr
+	db.trMu.Unlock()
+	if tr != nil {
+		tr.Discard()
 	}
 
 	// Acquire writer lock.
